@@ -62,6 +62,9 @@ CHECKS = {
  "C05": dict(cat="exploration", tech="runtime monitoring with a reference conversion interpreter: seeded version chains accepted by yardl, newest generated C++ (with compatibility serializers, plain + ASan) reading every old version and writing every old version, old versions' own generated readers fed the result; reference decode + documented-conversion oracle",
    text="Held on the chains explored (after two repairs found by this check). Restricted to edit classes with crisp data semantics; union case changes, number<->string text and out-of-range numerics are not evaluated.",
    note="Trusted: reference conversion written from docs/cpp/evolution.md; reference codec; each site edited once per chain.", ref="§5 C05"),
+ "C14": dict(cat="exploration", tech="runtime monitoring + plan extraction: the generated Python package is imported and every serializer/converter instantiated; the serializer construction expressions of Python binary, Python NDJSON and MATLAB binary (every protocol step, reader and writer, and every record field) are normalised to plans and compared with the reference plan from the harness AST; the C++ plan is executed by C01/C03",
+   text="All compared plans agree on the corpus explored (one known finding: Python annotation for arrays of fixed vectors). MATLAB is text-only (no interpreter), so a wrong static helper inside +yardl/+binary would not show.",
+   note="Trusted: reference plan from docs/reference/binary.md; expression parser for Python / MATLAB call syntax; MATLAB fixed-array dimensions are reversed (column-major) by documented normalisation.", ref="§5 C14"),
 }
 NA_REASON = "check not built yet in this session (work in progress, see DESIGN.md §5 for the planned monitor)"
 
